@@ -312,6 +312,9 @@ def shape_perturbations(shp: list[int], weight: bool = False) -> list[tuple[str,
     out.append(("lead1", [1] + shp))
     out.append(("trail1", shp + [1]))
     out.append(("lead2", [2] + shp))
+    if shp:     # two extra dimensions, and trailing dimensions that BROADCAST against the sample dimension
+        out += [("trail11", shp + [1, 1]), ("lead11", [1, 1] + shp), ("lead1trail1", [1] + shp + [1]),
+                ("trailN", shp + [shp[0]]), ("trail1N", shp + [1, shp[0]])]
     for i, d in enumerate(shp):
         for tag, nd in (("to1", 1), ("minus1", d - 1), ("plus1", d + 1), ("to0", 0)):
             if nd != d and nd >= 0:
